@@ -421,6 +421,12 @@ def same_term(ob, found, expected, what, where=None, vocab=None):
         ob.undecided('%s: value not computable by the evaluator (%s)' % (
             what, '; '.join(sorted({o[1] for o in ops}))[:300]), where)
         return False
+    ext = sorted({str(x[2][1]) for x in T.walk(found) if T.is_op(x, 'EXTCALL') and len(x) > 2 and T.is_const(x[2])}
+                 - ({str(x[2][1]) for x in T.walk(expected) if T.is_op(x, 'EXTCALL') and len(x) > 2 and T.is_const(x[2])} if expected is not None else set()))
+    if ext:
+        # a library function the summary table does not model: the value is not known, which is not a difference
+        ob.undecided('%s: the value goes through %s, which the summary table does not model; not compared' % (what, ', '.join(ext)), where)
+        return False
     d = T.first_difference(found, expected)
     path, a, b = d if d else ('', found, expected)
     return ob.require(False, '%s differs from the specification at %s' % (what, path or '<root>'), where,
